@@ -181,7 +181,7 @@ def rule_who_admits(ctx, res, floors=True):
         'bucket::Bucket::add_node': {'table::RoutingTable::bucket_node'},
         'table::RoutingTable::add_nodes': {'handler::DhtHandler::handle_incoming_response::{closure#0}', 'action::bootstrap::TableBootstrapInner::handle_message'},
     }
-    floor = {'table::RoutingTable::add_node': 3, 'table::RoutingTable::bucket_node': 2, 'bucket::Bucket::add_node': 1, 'table::RoutingTable::add_nodes': 3}
+    floor = {'table::RoutingTable::add_node': 1, 'table::RoutingTable::bucket_node': 1, 'bucket::Bucket::add_node': 1, 'table::RoutingTable::add_nodes': 1}   # non-vacuity
     for f in ADMIT_FNS:
         got = set(callers[f])
         res.check(got <= exp[f] and len(sites[f]) >= floor[f], 'WHO', f, 'called only from %s (floor %d sites)' % (sorted(lib.short(x) for x in exp[f]), floor[f]),
